@@ -158,7 +158,7 @@ def run_job(job, tier, seed, known):
     main = fut_main.result()
     R.queries += len(main['props'])
     R.ev = {'job': job.name, 'harness': job.src, 'shape': job.shape, 'defs': job.defs, 'bounds': job.bounds,
-            'unwind': job.unwind, 'unwindset': job.unwindset, 'solver': job.solver, 'opt': job.opt,
+            'unwind': job.unwind, 'unwindset': job.unwindset, 'solver': main.get('solver', job.solver), 'solver_portfolio': job.solver, 'opt': job.opt,
             'functions_encoded': len(job.defined), 'functions_encoded_sample': job.defined[:25],
             'external_models': job.externals, 'assert_ids': job.assert_ids, 'cover_ids': job.cover_ids,
             'cbmc_status': main['status'], 'properties_checked': len(main['props']),
